@@ -69,12 +69,16 @@ GradBad(e) ==
           {k \in 1..(e.w * e.h) :
              LET px == (k - 1) % e.w  py == (k - 1) \div e.w
                  u == UserCentre(inv, px, py)
-                 t == IF e.src.kind = "linear" THEN LinearT(e, u) ELSE RadialT(e, u)
-                 lo == t[1] - TWindow  hi == t[2] + TWindow
+                 given == e.src.kind \in {"sweep", "two_circle"}
+                 t == IF e.src.kind = "linear" THEN LinearT(e, u)
+                      ELSE IF e.src.kind = "radial" THEN RadialT(e, u) ELSE e.tmap[k]
+                 \* two-circle and sweep: the window is widened by |t| / 255
+                 wid == IF given THEN Max(Abs(t[1]), Abs(t[2])) \div 255 + 1 ELSE 0
+                 lo == t[1] - TWindow - wid  hi == t[2] + TWindow + wid
                  \* Pad beyond the ends: the end colour itself (tolerance 1)
                  beyond == e.src.spread = "Pad" /\ (hi < 0 \/ lo > 65536)
                  tol == IF beyond THEN 1 ELSE 4
-             IN \E ch \in 1..4 :
+             IN (t[1] <= t[2]) /\ \E ch \in 1..4 :
                   LET w == GradWindow(e.src.stops, e.src.spread, lo, hi, ab, ch)
                   IN e.pix[k][ch] < w[1] - tol \/ e.pix[k][ch] > w[2] + tol}
 
